@@ -10,8 +10,11 @@ pub mod c04;
 pub mod c05;
 pub mod c06;
 pub mod c07;
+pub mod c08;
+pub mod c09;
 pub mod c10;
 pub mod c13;
+pub mod c20;
 
 pub const ALL: &[&str] = &[
     "C01", "C02", "C03", "C04", "C05", "C06", "C07", "C08", "C09", "C10", "C11", "C12", "C13", "C14", "C15", "C16",
@@ -31,15 +34,17 @@ pub fn run(ctx: &mut Ctx) -> bool {
         "C05" => c05::run(ctx),
         "C06" => c06::run(ctx),
         "C07" => c07::run(ctx),
+        "C08" => c08::run(ctx),
+        "C09" => c09::run(ctx),
         "C10" => c10::run(ctx),
         "C13" => c13::run(ctx),
+        "C20" => c20::run(ctx),
         _ => return false,
     }
     true
 }
 
 pub fn replay(id: &str, sub: &str, case: &Value, ctx: &Ctx) -> Option<Verdict> {
-    let _ = ctx;
     match id {
         "C01" => c01::replay(sub, case),
         "C02" => c02::replay(sub, case),
@@ -48,8 +53,14 @@ pub fn replay(id: &str, sub: &str, case: &Value, ctx: &Ctx) -> Option<Verdict> {
         "C05" => c05::replay(sub, case),
         "C06" => c06::replay(sub, case),
         "C07" => c07::replay(sub, case),
+        "C08" => c08::replay(sub, case),
+        "C09" => {
+            c09::set_cli(ctx.cli.clone(), ctx.root.clone());
+            c09::replay(sub, case)
+        }
         "C10" => c10::replay(sub, case),
         "C13" => c13::replay(sub, case),
+        "C20" => c20::replay(sub, case),
         _ => None,
     }
 }
